@@ -158,6 +158,8 @@ def teardown_steps(src):
                 inner = t.strip()
                 walk(live(statements(inner[1:close(inner, 0) - 1])))
             elif m and not w.startswith('let_='):
+                if m.group(2) == 'Arc::strong_count(&unimock.shared_state)':
+                    steps.append('.sampleStrong')      # the count is read HERE; the comparison further down uses this reading
                 binds[m.group(1)] = m.group(2)
             elif w.startswith('for'):
                 if re.fullmatch(r'for(?:\(_,(\w+)\)inunimock\.shared_state\.fn_mockers\.iter\(\)|(\w+)inunimock\.shared_state\.fn_mockers\.values\(\))\{(?:\1|\2)\.verify\(&mut(\w+)\);?\}', w) and \
@@ -870,7 +872,7 @@ def emit_builder(root):
 
 # ------------------------------------------------------------------ emit
 FALLBACK = {
-    'teardown': '[.setTornDown, .dropHelper, .dropChain, .retOkIfNotOriginal, .retOkIfPanicking, .panicIfStrongGt 1, .panicIfOtherThread, .errIfReasons, .verify]',
+    'teardown': '[.setTornDown, .dropHelper, .dropChain, .retOkIfNotOriginal, .retOkIfPanicking, .sampleStrong, .panicIfStrongGt 1, .panicIfOtherThread, .errIfReasons, .verify]',
     'drop': '[.retIfTornDown, .teardownIfVerifyInDrop]',
     'verify': '[.panicIfNotOriginal, .teardown]',
     'noverify': '[.panicIfNotOriginal, .clearVerifyInDrop]',
